@@ -263,4 +263,243 @@ theorem accept_sha512 (count : Nat) (rb : Bytes) (n osize : Nat) (S : Bytes) (e 
     (by decide) (by decide) (by decide) (by decide) (by decide) h (fun P => permEncode Gen.perm_sha512crypt (D.sha512crypt p P.salt P.rounds))
   exact ⟨_, by unfold cryptSha512; rw [hP], hpre⟩
 
+
+/-! ### sha1crypt -/
+theorem sha1SaltLoop_spec (rb : Bytes) (rlim olim : Nat) : ∀ fuel r o,
+    (∀ c ∈ sha1SaltLoop rb rlim olim fuel r o, c ∈ Gen.ascii64) ∧ o + (sha1SaltLoop rb rlim olim fuel r o).length ≤ max olim o := by
+  intro fuel
+  induction fuel with
+  | zero => intro r o; simp [sha1SaltLoop]; omega
+  | succ f ih =>
+    intro r o
+    simp only [sha1SaltLoop]
+    split
+    · rename_i hc
+      obtain ⟨i1, i2⟩ := ih (r + 3) (o + 4)
+      refine ⟨?_, ?_⟩
+      · intro c hc'
+        simp only [List.mem_append] at hc'
+        rcases hc' with h | h
+        · exact (enc24_chars _ c h).1
+        · exact i1 c h
+      · simp only [List.length_append, enc24_length]; omega
+    · simp; omega
+
+theorem sha1SaltLoop_nonempty (rb : Bytes) (rlim olim fuel r o : Nat) (h : r + 3 < rlim ∧ o + 4 < olim) :
+    0 < (sha1SaltLoop rb rlim olim (fuel + 1) r o).length := by
+  simp only [sha1SaltLoop, h, and_self, if_true, List.length_append, enc24_length]; omega
+
+/-- a canonical sha1crypt setting parses to its fields -/
+theorem parseSha1_canon (r : Nat) (salt tail : Bytes) (hr : r ≤ ULONG_MAX) (hs : ∀ x ∈ salt, x ∈ Gen.ascii64) (hne : salt.length ≠ 0)
+    (hfit : ¬ (sha1Magic.length + (toDec r).length + 1 + salt.length + 1 + Gen.SHA1_OUTPUT_SIZE + 1 > Gen.CRYPT_OUTPUT_SIZE)) :
+    parseSha1 (sha1Magic ++ (toDec r ++ 36 :: (salt ++ 36 :: tail))) = .ok { iterations := r, salt := salt } := by
+  unfold parseSha1
+  simp only []
+  rw [hasPrefix_append]
+  simp only [List.drop_left, not_true_eq_false, if_false]
+  rw [strtoul10_toDec r _ hr]
+  simp only [cat_append_mid, ne_eq, not_true_eq_false, if_false]
+  have hd : (toDec r ++ 36 :: (salt ++ 36 :: tail)).drop ((toDec r).length + 1) = salt ++ 36 :: tail := by
+    rw [show toDec r ++ 36 :: (salt ++ 36 :: tail) = (toDec r ++ [36]) ++ (salt ++ 36 :: tail) by simp only [List.append_assoc, List.singleton_append]]
+    rw [show (toDec r).length + 1 = (toDec r ++ [36]).length by simp only [List.length_append, List.length_cons, List.length_nil], List.drop_left]
+  rw [hd, strspn_stop salt 36 tail Gen.ascii64 hs (by decide), cat_append_mid]
+  have c2 : ¬ (salt.length = 0 ∨ ¬ (36 : UInt8) = 0 ∧ ¬ True) := by
+    intro h; rcases h with h | h
+    · exact hne h
+    · exact h.2 trivial
+  simp only [c2, if_false, hfit, List.take_left]
+
+theorem cryptSha1_of_parse (D : Digests) (p s : Bytes) (P : Sha1Parsed) (h : parseSha1 s = .ok P) :
+    cryptSha1 D p s = .ok (sha1Magic ++ toDec P.iterations ++ [36] ++ P.salt ++ [36] ++ sha1Encode (D.sha1crypt p P.salt P.iterations)) := by
+  unfold cryptSha1; rw [h]
+
+theorem accept_sha1 (count : Nat) (rb : Bytes) (n osize : Nat) (S : Bytes) (e : Nat) (h : gensaltSha1 count rb n osize = .ok S e)
+    (D : Digests) (p : Bytes) : ∃ H, cryptSha1 D p S = .ok H ∧ S <+: H := by
+  unfold gensaltSha1 at h
+  have hsl : Gen.CRYPT_SHA1_SALT_LENGTH = 64 := by decide
+  generalize Gen.CRYPT_SHA1_SALT_LENGTH = F at h hsl
+  have hr := sha1Rounds_lt count rb
+  generalize sha1Rounds count rb = r at *
+  have hdl : (toDec r).length ≤ 10 := toDec_length_le10 r (by omega)
+  have hdp := toDec_length_pos r
+  have hn0l : ([36, 115, 104, 97, 49, 36] ++ toDec r ++ [36] : Bytes).length = 7 + (toDec r).length := by
+    simp only [List.length_append, List.length_cons, List.length_nil]; omega
+  split at h; · cases h
+  rename_i hn
+  split at h; · cases h
+  rename_i hos
+  simp only [hn0l] at h
+  generalize hL : (toDec r).length = L at *
+  split at h; · cases h
+  rename_i hn0
+  simp only [WOut.ok.injEq] at h
+  obtain ⟨hS, _⟩ := h
+  simp only [Nat.not_lt] at hn hos
+  -- the effective output limit
+  generalize holim : (if 7 + L + F + 2 > osize then osize - 2 else 7 + L + F) = olim at hS
+  have holb : 7 + L + 4 < olim ∧ olim ≤ 7 + L + 64 := by rw [← holim, hsl]; split <;> omega
+  generalize hsalt : sha1SaltLoop rb n olim (F + 1) 4 (7 + L) = salt at hS
+  obtain ⟨sp1, sp2⟩ := sha1SaltLoop_spec rb n olim (F + 1) 4 (7 + L)
+  have spos := sha1SaltLoop_nonempty rb n olim F 4 (7 + L) ⟨by omega, holb.1⟩
+  rw [hsalt] at sp1 sp2 spos
+  have hslen : salt.length ≤ 64 := by rw [Nat.max_def] at sp2; split at sp2 <;> omega
+  have hm : ([36, 115, 104, 97, 49, 36] : Bytes) = sha1Magic := rfl
+  subst hS
+  refine ⟨sha1Magic ++ toDec r ++ [36] ++ salt ++ [36] ++ sha1Encode (D.sha1crypt p salt r), ?_, ⟨sha1Encode (D.sha1crypt p salt r), by rw [hm]⟩⟩
+  have e1 : ([36, 115, 104, 97, 49, 36] : Bytes) ++ toDec r ++ [36] ++ salt ++ [36] = sha1Magic ++ (toDec r ++ 36 :: (salt ++ 36 :: [])) := by
+    rw [hm]; simp only [List.append_assoc, List.singleton_append, List.cons_append, List.nil_append]
+  have hfit : ¬ (sha1Magic.length + (toDec r).length + 1 + salt.length + 1 + Gen.SHA1_OUTPUT_SIZE + 1 > Gen.CRYPT_OUTPUT_SIZE) := by
+    have : sha1Magic.length = 6 := rfl
+    have : Gen.SHA1_OUTPUT_SIZE = 28 := by decide
+    have : Gen.CRYPT_OUTPUT_SIZE = 384 := by decide
+    omega
+  have hp := parseSha1_canon r salt [] (by unfold ULONG_MAX; omega) sp1 (by omega) hfit
+  rw [e1]
+  exact cryptSha1_of_parse D p _ _ hp
+
+/-! ### bcrypt -/
+theorem bfEncode_chars : ∀ l : Bytes, ∀ c ∈ bfEncode l, ∃ v, c = bf64 v
+  | [], c, h => by simp [bfEncode] at h
+  | [a], c, h => by
+    simp only [bfEncode, List.mem_cons, List.mem_nil_iff, or_false] at h
+    rcases h with rfl | rfl <;> exact ⟨_, rfl⟩
+  | [a, b], c, h => by
+    simp only [bfEncode, List.mem_cons, List.mem_nil_iff, or_false] at h
+    rcases h with rfl | rfl | rfl <;> exact ⟨_, rfl⟩
+  | a :: b :: c' :: rest, c, h => by
+    simp only [bfEncode, List.mem_append, List.mem_cons, List.mem_nil_iff, or_false] at h
+    rcases h with (rfl | rfl | rfl | rfl) | h
+    · exact ⟨_, rfl⟩
+    · exact ⟨_, rfl⟩
+    · exact ⟨_, rfl⟩
+    · exact ⟨_, rfl⟩
+    · exact bfEncode_chars rest c h
+
+theorem bfAtoi_bf64' (v : Nat) : bfAtoi (bf64 v) = some (v % 64) := by
+  have := bfAtoi_bf64 ⟨v % 64, Nat.mod_lt _ (by decide)⟩
+  simpa [bf64] using this
+
+/-- 22 valid characters decode to something -/
+theorem bfDecode16_some (x : Bytes) (h : ∀ i, i < 22 → ∃ v, bfAtoi (cat x i) = some v) : ∃ out, bfDecode16 x = some out := by
+  obtain ⟨v0, h0⟩ := h 0 (by omega); obtain ⟨v1, h1⟩ := h 1 (by omega); obtain ⟨v2, h2⟩ := h 2 (by omega); obtain ⟨v3, h3⟩ := h 3 (by omega)
+  obtain ⟨v4, h4⟩ := h 4 (by omega); obtain ⟨v5, h5⟩ := h 5 (by omega); obtain ⟨v6, h6⟩ := h 6 (by omega); obtain ⟨v7, h7⟩ := h 7 (by omega)
+  obtain ⟨v8, h8⟩ := h 8 (by omega); obtain ⟨v9, h9⟩ := h 9 (by omega); obtain ⟨v10, h10⟩ := h 10 (by omega); obtain ⟨v11, h11⟩ := h 11 (by omega)
+  obtain ⟨v12, h12⟩ := h 12 (by omega); obtain ⟨v13, h13⟩ := h 13 (by omega); obtain ⟨v14, h14⟩ := h 14 (by omega); obtain ⟨v15, h15⟩ := h 15 (by omega)
+  obtain ⟨v16, h16⟩ := h 16 (by omega); obtain ⟨v17, h17⟩ := h 17 (by omega); obtain ⟨v18, h18⟩ := h 18 (by omega); obtain ⟨v19, h19⟩ := h 19 (by omega)
+  obtain ⟨v20, h20⟩ := h 20 (by omega); obtain ⟨v21, h21⟩ := h 21 (by omega)
+  simp only [bfDecode16, bfDecode16.go, Nat.zero_add, Nat.reduceAdd, Nat.reduceEqDiff, if_false, if_true,
+    h0, h1, h2, h3, h4, h5, h6, h7, h8, h9, h10, h11, h12, h13, h14, h15, h16, h17, h18, h19, h20, h21, Option.map_some]
+  exact ⟨_, rfl⟩
+
+theorem bf_cost_digits : ∀ c : Fin 32, 4 ≤ c.val →
+    let d1 := (48 + c.val / 10).toUInt8; let d2 := (48 + c.val % 10).toUInt8
+    ¬ (d1 < 48 ∨ d1 > 51 ∨ d2 < 48 ∨ d2 > 57 ∨ (d1 = 51 ∧ d2 > 49)) ∧ (d1.toNat - 48) * 10 + (d2.toNat - 48) = c.val ∧ ¬ (2 ^ c.val < 16) := by decide
+
+theorem take_succ_getD (l : Bytes) (n : Nat) (h : l.length = n + 1) : l.take n ++ [l.getD n 0] = l := by
+  have h1 : l.drop n = [l.getD n 0] := by
+    have hl : (l.drop n).length = 1 := by simp [h]
+    match hd : l.drop n, hl with
+    | [x], _ =>
+      have : l.getD n 0 = x := by
+        have := congrArg (fun t => t.getD 0 0) hd
+        simpa [List.getD_eq_getElem?_getD] using this
+      rw [this]
+  conv => rhs; rw [← List.take_append_drop n l]
+  rw [h1]
+
+theorem bfEncode_last16 (l : Bytes) (h : l.length = 16) : ∃ v, v < 4 ∧ cat (bfEncode l) 21 = bf64 (v * 16) := by
+  match l, h with
+  | [x0, x1, x2, x3, x4, x5, x6, x7, x8, x9, x10, x11, x12, x13, x14, x15], _ =>
+    refine ⟨x15.toNat % 4, Nat.mod_lt _ (by decide), ?_⟩
+    simp [bfEncode, cat]
+
+theorem accept_bf (sub : UInt8) (count : Nat) (rb : Bytes) (n osize : Nat) (S : Bytes) (e : Nat) (h : gensaltBf sub count rb n osize = .ok S e)
+    (D : Digests) (hst : ∀ f, D.bfSelfTest f = true) (p : Bytes) : ∃ H, cryptBf D p S = .ok H ∧ S <+: H := by
+  unfold gensaltBf at h
+  simp only [] at h
+  split at h; · cases h
+  rename_i hc
+  split at h; · cases h
+  simp only [WOut.ok.injEq] at h
+  obtain ⟨hS, _⟩ := h
+  simp only [not_or, Nat.not_lt, not_and, Decidable.not_not] at hc
+  obtain ⟨_, hc4, hc31, hsub⟩ := hc
+  generalize dfl count 5 = c at *
+  have hcd := bf_cost_digits ⟨c, by omega⟩ (by simpa using hc4)
+  simp only [] at hcd
+  obtain ⟨hd, hcost, hpow⟩ := hcd
+  -- the 22 salt characters
+  have hel := bfEncode_length16 (padTo rb 16) (padTo_length rb 16)
+  have hch := bfEncode_chars (padTo rb 16)
+  obtain ⟨v21, hv21, hlast⟩ := bfEncode_last16 (padTo rb 16) (padTo_length rb 16)
+  generalize bfEncode (padTo rb 16) = enc at *
+  have hS' : S = [36, 50, sub, 36, (48 + c / 10).toUInt8, (48 + c % 10).toUInt8, 36] ++ enc := hS.symm
+  have hlen : S.length = 29 := by rw [hS']; simp [hel]
+  have hcat : ∀ i, i < 22 → cat S (7 + i) = cat enc i := by
+    intro i hi; rw [hS']; simp only [cat, List.getD_eq_getElem?_getD]
+    rw [List.getElem?_append_right (by simp)]; simp
+  have hvalid : ∀ i, i < 22 → ∃ v, bfAtoi (cat enc i) = some v := by
+    intro i hi
+    have hm : cat enc i ∈ enc := by
+      unfold cat; rw [List.getD_eq_getElem?_getD, List.getElem?_eq_getElem (by omega)]; simp
+    obtain ⟨v, hv⟩ := hch _ hm
+    exact ⟨v % 64, by rw [hv, bfAtoi_bf64']⟩
+  obtain ⟨salt, hsalt⟩ := bfDecode16_some (S.drop 7) (by intro i hi; rw [cat_drop, hcat i hi]; exact hvalid i hi)
+  -- the parse
+  have hflags : (Gen.flags_by_subtype.getD (sub.toNat - 97) 0).toNat ≠ 0 := by
+    rcases Classical.em (sub = 97) with h | h
+    · subst h; decide
+    · rcases Classical.em (sub = 98) with h2 | h2
+      · subst h2; decide
+      · have := hsub h h2; subst this; decide
+  have hrange : ¬ (sub < 97 ∨ sub > 122) := by
+    rcases Classical.em (sub = 97) with h | h
+    · subst h; decide
+    · rcases Classical.em (sub = 98) with h2 | h2
+      · subst h2; decide
+      · have := hsub h h2; subst this; decide
+  have hparse : parseBf S = some { flags := (Gen.flags_by_subtype.getD (sub.toNat - 97) 0).toNat, cost := c, salt := salt } := by
+    unfold parseBf
+    have c0 : cat S 0 = 36 := by rw [hS']; rfl
+    have c1 : cat S 1 = 50 := by rw [hS']; rfl
+    have c2 : cat S 2 = sub := by rw [hS']; rfl
+    have c3 : cat S 3 = 36 := by rw [hS']; rfl
+    have c4 : cat S 4 = (48 + c / 10).toUInt8 := by rw [hS']; rfl
+    have c5 : cat S 5 = (48 + c % 10).toUInt8 := by rw [hS']; rfl
+    have c6 : cat S 6 = 36 := by rw [hS']; rfl
+    simp only [c0, c1, c2, c3, c4, c5, c6, hsalt]
+    have g1 : ¬ ((36 : UInt8) ≠ 36 ∨ (50 : UInt8) ≠ 50 ∨ sub < 97 ∨ sub > 122) := by
+      intro h; rcases h with h | h | h
+      · exact h rfl
+      · exact h rfl
+      · exact hrange h
+    have g2 : ¬ ((Gen.flags_by_subtype.getD (sub.toNat - 97) 0).toNat = 0 ∨ (36 : UInt8) ≠ 36 ∨ (48 + c / 10).toUInt8 < 48 ∨
+            (48 + c / 10).toUInt8 > 51 ∨ (48 + c % 10).toUInt8 < 48 ∨ (48 + c % 10).toUInt8 > 57 ∨
+            (48 + c / 10).toUInt8 = 51 ∧ (48 + c % 10).toUInt8 > 49 ∨ (36 : UInt8) ≠ 36) := by
+      intro h; rcases h with h | h | h | h | h | h | h | h
+      · exact hflags h
+      · exact h rfl
+      · exact hd (Or.inl h)
+      · exact hd (Or.inr (Or.inl h))
+      · exact hd (Or.inr (Or.inr (Or.inl h)))
+      · exact hd (Or.inr (Or.inr (Or.inr (Or.inl h))))
+      · exact hd (Or.inr (Or.inr (Or.inr (Or.inr h))))
+      · exact h rfl
+    rw [if_neg g1, if_neg g2, hcost, if_neg hpow]
+  -- the 29th character is kept as it is: its four unused bits are already zero
+  have h28 : cat S 28 = bf64 (v21 * 16) := by
+    have := hcat 21 (by omega); rw [show 7 + 21 = 28 from rfl] at this; rw [this, hlast]
+  refine ⟨S ++ bfEncode (D.bf (Gen.flags_by_subtype.getD (sub.toNat - 97) 0).toNat c salt p), ?_, ⟨_, rfl⟩⟩
+  unfold cryptBf
+  rw [hparse]
+  simp only [hst, not_true_eq_false, if_false]
+  have hB : Gen.BF_SETTING_LENGTH - 1 = 28 := by decide
+  rw [hB, h28, bfAtoi_bf64']
+  have e16 : v21 * 16 % 64 / 16 * 16 = v21 * 16 := by omega
+  simp only [Option.getD_some, e16]
+  rw [← h28]
+  have := take_succ_getD S 28 hlen
+  unfold cat
+  rw [this]
+
 end Xc
